@@ -199,3 +199,14 @@ Proof. apply gen_stream_from_nodup. Qed.
 Definition self_index : N := 4771499.
 Lemma nth_raw_self : nth_raw self_index = of_string "self".
 Proof. vm_compute. reflexivity. Qed.
+
+Theorem filtered_name_valid : forall av q,
+  incl keywords av -> filter_identifier av (nth_raw q) = true ->
+  valid_ident (nth_raw q) = true /\ ~ In (nth_raw q) keywords.
+Proof.
+  intros av q H1 H2. split; [now apply (filter_valid av) | apply valid_not_keyword; now apply (filter_valid av)].
+Qed.
+
+Theorem generated_stream : forall n,
+  Forall (fun x => valid_ident x = true) (gen_stream n) /\ NoDup (gen_stream n).
+Proof. intros n. split; [apply gen_stream_valid | apply gen_stream_nodup]. Qed.
